@@ -622,18 +622,18 @@ class PhonopyAtoms:
 
         """
         if distinguish_symbol_index:
-            numbers = self._numbers_with_shifts
+            numbers = self._numbers_with_shifts.copy()
         else:
             numbers = self.numbers
 
         if self._magnetic_moments is None:
-            return (self._cell, self._scaled_positions, numbers)
+            return (self._cell.copy(), self._scaled_positions.copy(), numbers)
         else:
             return (
-                self._cell,
-                self._scaled_positions,
+                self._cell.copy(),
+                self._scaled_positions.copy(),
                 numbers,
-                self._magnetic_moments,
+                self._magnetic_moments.copy(),
             )
 
     def to_tuple(self):
